@@ -121,4 +121,68 @@ def main(tier):
     bits = 17 + 19 * 3 + (K['ISAL_DEF_LIT_LEN_SYMBOLS'] + K['ISAL_DEF_DIST_SYMBOLS']) * 7
     RH.check(bits + 64 <= K['ISAL_DEF_MAX_HDR_SIZE'] * 8, 'include/igzip_lib.h:ISAL_DEF_MAX_HDR_SIZE', 'worst-case header %d bits + 64 bits slack exceeds %d bytes' % (bits, K['ISAL_DEF_MAX_HDR_SIZE']),
              sample='%d bits + 64 <= %d' % (bits, K['ISAL_DEF_MAX_HDR_SIZE'] * 8))
+    check_useable_schedule(rep, mod, K)
     return rep.finish()
+
+
+def check_useable_schedule(rep, mod, K):
+    """are_hufftables_useable decides whether the fallback to the safe limits is taken; it is only right if it adds to every
+    code length the number of extra bits RFC 1951 gives that symbol.  The extra-bit schedule in the function depends only on
+    the loop counters, so constant propagation over the unrolled loops (CONSTINTERP: table contents are TOP) yields, for every
+    symbol index, the constant added to its code length."""
+    import constinterp, rfc1951
+    R = rep.rule('T-EXTRA-SCHEDULE', 'are_hufftables_useable: for every length symbol 257..284 and every distance symbol 0..29 the constant the function adds to the symbol\'s code length '
+                 '(constant propagation through the unrolled, data-independent loop schedule) equals the RFC 1951 extra-bit count of that symbol; the sum is compared with MAX_BITBUF_BIT_WRITE', floor=58, unit='symbols')
+    f = mod.funcs.get('are_hufftables_useable')
+    if f is None:
+        raise AnalysisBroken('are_hufftables_useable not found')
+    P = irrules.prov(mod, f)
+    seen = {0: {}, 1: {}}
+    loads = {0: set(), 1: set()}
+    cmpk = []
+
+    def index_of(ptr, env, ip):
+        v = ptr
+        for _ in range(8):
+            d = f.defs.get(v)
+            if d is None:
+                return None
+            if d.op == 'getelementptr' and d.ops[0] in [n for _, n in f.params]:
+                idx = d.extra['idx'][0].split()[-1]
+                return ip.val(idx, env)
+            v = d.ops[0]
+        return None
+
+    def obs(i, env, ip):
+        if i.op == 'load':
+            at = P.atoms(i.ops[0])
+            for a in at:
+                if a[0] == 'param' and a[1] in (0, 1):
+                    k = index_of(i.ops[0], env, ip)
+                    if k is not None and k != constinterp.TOP:
+                        loads[a[1]].add(k)
+        if i.op == 'add':
+            for x, y in ((i.ops[0], i.ops[1]), (i.ops[1], i.ops[0])):
+                d = f.defs.get(irrules._strip(f, x))
+                if d is not None and d.op == 'load':
+                    at = P.atoms(d.ops[0])
+                    for a in at:
+                        if a[0] == 'param' and a[1] in (0, 1):
+                            k = index_of(d.ops[0], env, ip)
+                            seen[a[1]].setdefault(k, set()).add(ip.val(y, env))
+        if i.op == 'icmp' and i.extra['pred'] in ('sgt', 'ugt') and re.match(r'^\d+$', i.ops[1]) and f.blocks[i.block].insns[-1].op == 'ret':
+            cmpk.append(int(i.ops[1]))
+    ip = constinterp.Interp(mod, f, obs)
+    ip.run()
+    where = 'igzip/huff_codes.c:are_hufftables_useable'
+    for tbl, lo, hi, ref, name in ((0, 257, 284, lambda s_: rfc1951.LEN_EXTRA[s_ - 257], 'length'), (1, 0, K['DIST_LEN'] - 1 if 'DIST_LEN' in K else 29, lambda s_: rfc1951.DIST_EXTRA[s_], 'distance')):
+        for s_ in range(lo, hi + 1):
+            R.instance()
+            got = seen[tbl].get(s_)
+            R.check(got == {ref(s_)}, where, '%s symbol %d: the function adds %s to its code length, RFC 1951 gives it %d extra bits; the widest code is mis-measured and an over-wide table can be accepted for the 64-bit bit buffer'
+                    % (name, s_, sorted(got, key=str) if got else 'nothing (symbol not visited)', ref(s_)), key='T-EXTRA-SCHEDULE|%s|%d' % (name, s_),
+                    sample='%s symbols %d..%d: extra bits as in RFC 1951' % (name, lo, hi) if s_ == hi else None)
+    R.instance()
+    R.check(set(range(0, 286)) <= loads[0], where, 'the literal/length scan does not visit every symbol 0..285 (visited %d)' % len(loads[0]), key='T-EXTRA-SCHEDULE|litscan', sample='all 286 lit/len symbols visited')
+    R.check(cmpk == [K['MAX_BITBUF_BIT_WRITE']], where, 'the total is compared with %s, expected MAX_BITBUF_BIT_WRITE = %d' % (cmpk, K['MAX_BITBUF_BIT_WRITE']), key='T-EXTRA-SCHEDULE|limit',
+            sample='sum > %d -> not usable' % K['MAX_BITBUF_BIT_WRITE'])
